@@ -3,18 +3,23 @@ import NflVerif.Model.Prng18
 namespace Nfl.Prng18
 
 def Pc.inside : Pc → Bool
-  | .rdInit | .seed | .wrInit | .rdNonceA | .rdNonceB | .wrNonce | .unlock => true
+  | .rdInit | .seed | .fill | .wrInit | .rdNonceA | .rdNonceB | .wrNonce | .unlock => true
   | _ => false
 
 def Pc.pastInit : Pc → Bool
   | .rdNonceA | .rdNonceB | .wrNonce | .unlock | .gen => true
   | _ => false
 
+/-- inside the seeding step (flag and key being written) -/
+def Pc.seeding : Pc → Bool
+  | .seed | .fill | .wrInit => true
+  | _ => false
+
 def Pc.hasMy : Pc → Bool
   | .rdNonceB | .wrNonce | .unlock | .gen => true
   | _ => false
 
-structure InvA (seedVal : Nat → Nat) (n0 : Nat) (s : State) : Prop where
+structure InvA (sd : Seeding) (seedVal : Nat → Nat) (n0 : Nat) (s : State) : Prop where
   lockI : ∀ t, (s.thr t).pc.inside = true ↔ s.lock = some t
   acqI : s.acq.map Prod.snd = (List.range' n0 s.acq.length).map (· % W)
   nonceHeld : ∀ h, s.lock = some h → (s.thr h).pc ≠ .unlock →
@@ -22,52 +27,146 @@ structure InvA (seedVal : Nat → Nat) (n0 : Nat) (s : State) : Prop where
   nonceFree : (s.lock = none ∨ ∃ h, s.lock = some h ∧ (s.thr h).pc = .unlock) → s.nonce = (n0 + s.acq.length) % W
   myI : ∀ t, (s.thr t).pc.hasMy = true → (s.thr t).my = (s.thr t).ticket
   nI : ∀ t, (s.thr t).pc = .wrNonce → (s.thr t).n = (s.thr t).ticket
-  seedT : s.init = true → s.seeds = 1 ∧ s.key = seedVal 0
+  -- seeding: while a thread is inside the seeding step every other thread is idle and nothing has been generated
+  seedingI : ∀ h, (s.thr h).pc.seeding = true → s.lock = some h ∧ s.out = [] ∧ ∀ t, t ≠ h → (s.thr t).pc = .idle
+  seedT : s.init = true → (∃ h, s.lock = some h ∧ (s.thr h).pc.seeding = true) ∨ (s.seeds = 1 ∧ s.key = seedVal 0 ∧ s.miss = 0)
   seedF : s.init = false → s.out = [] ∧ (∀ t, s.lock ≠ some t → (s.thr t).pc = .idle) ∧
-      (s.seeds = 0 ∨ (s.seeds = 1 ∧ s.key = seedVal 0 ∧ ∃ h, s.lock = some h ∧ (s.thr h).pc = .wrInit))
-  pastI : ∀ t, (s.thr t).pc.pastInit = true → s.init = true
-  seedPc : ∀ t, (s.thr t).pc = .seed → s.init = false ∧ s.seeds = 0
-  wrInitPc : ∀ t, (s.thr t).pc = .wrInit → s.init = false ∧ s.seeds = 1 ∧ s.key = seedVal 0
-  outKey : ∀ o ∈ s.out, o.key = seedVal 0
+      (s.seeds = 0 ∨ (s.seeds = 1 ∧ s.key = seedVal 0 ∧ ∃ h, s.lock = some h ∧ ((s.thr h).pc = .wrInit ∨ (s.thr h).pc = .fill)))
+  pastI : ∀ t, (s.thr t).pc.pastInit = true → s.init = true ∧ s.seeds = 1 ∧ s.key = seedVal 0 ∧ s.miss = 0
+  seedPc : ∀ t, (s.thr t).pc = .seed → s.seeds = 0 ∧ s.init = sd.flagFirst
+  fillPc : ∀ t, (s.thr t).pc = .fill → s.seeds = 1 ∧ s.key = seedVal 0 ∧ 1 ≤ s.miss ∧ s.init = sd.flagFirst
+  wrInitPc : ∀ t, (s.thr t).pc = .wrInit → s.init = false ∧
+      (if sd.flagFirst then s.seeds = 0 else s.seeds = 1 ∧ s.key = seedVal 0 ∧ s.miss = 0)
+  seedsLe : s.seeds ≤ 1
+  outSeeds : s.out ≠ [] → s.seeds = 1
+  outKey : ∀ o ∈ s.out, o.key = seedVal 0 ∧ o.miss = 0
 
-theorem invA_init (seedVal : Nat → Nat) (reqs : Nat → Nat) (n0 : Nat) (hn0 : n0 < W) :
-    InvA seedVal n0 (init reqs n0) := by
-  constructor <;> simp [init, Pc.inside, Pc.pastInit, Pc.hasMy, Nat.mod_eq_of_lt hn0]
+theorem invA_init (sd : Seeding) (seedVal : Nat → Nat) (reqs : Nat → Nat) (n0 : Nat) (hn0 : n0 < W) :
+    InvA sd seedVal n0 (init reqs n0) := by
+  constructor <;> simp [init, Pc.inside, Pc.pastInit, Pc.hasMy, Pc.seeding, Nat.mod_eq_of_lt hn0]
 
-theorem invA_step {seedVal : Nat → Nat} {n0 : Nat} {s s' : State} {t : Nat}
-    (hi : InvA seedVal n0 s) (hs : step seedVal s t = some s') : InvA seedVal n0 s' := by
-  obtain ⟨lockI, acqI, nonceHeld, nonceFree, myI, nI, seedT, seedF, pastI, seedPc, wrInitPc, outKey⟩ := hi
+theorem invA_step_idle {sd : Seeding} {seedVal : Nat → Nat} {n0 : Nat} {s s' : State} {t : Nat}
+    (hi : InvA sd seedVal n0 s) (hpc : (s.thr t).pc = .idle) (hs : step sd seedVal s t = some s') : InvA sd seedVal n0 s' := by
+  obtain ⟨lockI, acqI, nonceHeld, nonceFree, myI, nI, seedingI, seedT, seedF, pastI, seedPc, fillPc, wrInitPc, seedsLe, outSeeds, outKey⟩ := hi
   have hin := lockI t
-  cases hpc : (s.thr t).pc <;> simp only [step, hpc] at hs
-  case idle =>
-    split at hs
+  simp only [step, hpc] at hs
+  split at hs
+  · cases hs
+  · split at hs
     · cases hs
-    · split at hs
-      · cases hs
-      · rename_i hlock
-        simp at hs; subst hs
-        have hnf := nonceFree (Or.inl hlock)
-        constructor
-        case acqI =>
-          simp only [List.map_append, List.length_append, List.length_singleton, List.range'_concat, acqI]
-          simp [hnf]
-        case nonceHeld =>
-          intro h hh hne
-          simp at hh; subst hh
-          simp [hnf]
-        all_goals grind [upd, Pc.inside, Pc.pastInit, Pc.hasMy]
-  case wrNonce =>
-    simp at hs; subst hs
-    have hl : s.lock = some t := (lockI t).mp (by simp [hpc, Pc.inside])
-    obtain ⟨h1, h2, h3⟩ := nonceHeld t hl (by simp [hpc])
-    have h4 := nI t hpc
-    constructor
-    case nonceFree =>
-      intro _
-      show ((s.thr t).n + 1) % W = (n0 + s.acq.length) % W
-      rw [h4, h3]; simp only [W]; omega
-    all_goals grind [upd, Pc.inside, Pc.pastInit, Pc.hasMy]
-  all_goals (simp at hs; subst hs; constructor)
-  all_goals (try grind [upd, Pc.inside, Pc.pastInit, Pc.hasMy])
+    · rename_i hlock
+      simp at hs; subst hs
+      have hnf := nonceFree (Or.inl hlock)
+      constructor
+      case acqI =>
+        simp only [List.map_append, List.length_append, List.length_singleton, List.range'_concat, acqI]
+        simp [hnf]
+      case nonceHeld =>
+        intro h hh hne
+        simp at hh; subst hh
+        simp [hnf]
+      all_goals grind [upd, Pc.inside, Pc.pastInit, Pc.hasMy, Pc.seeding]
+
+theorem invA_step_wrNonce {sd : Seeding} {seedVal : Nat → Nat} {n0 : Nat} {s s' : State} {t : Nat}
+    (hi : InvA sd seedVal n0 s) (hpc : (s.thr t).pc = .wrNonce) (hs : step sd seedVal s t = some s') : InvA sd seedVal n0 s' := by
+  obtain ⟨lockI, acqI, nonceHeld, nonceFree, myI, nI, seedingI, seedT, seedF, pastI, seedPc, fillPc, wrInitPc, seedsLe, outSeeds, outKey⟩ := hi
+  have hin := lockI t
+  simp only [step, hpc] at hs
+  simp at hs; subst hs
+  have hl : s.lock = some t := (lockI t).mp (by simp [hpc, Pc.inside])
+  obtain ⟨h1, h2, h3⟩ := nonceHeld t hl (by simp [hpc])
+  have h4 := nI t hpc
+  constructor
+  case nonceFree =>
+    intro _
+    show ((s.thr t).n + 1) % W = (n0 + s.acq.length) % W
+    rw [h4, h3]; simp only [W]; omega
+  all_goals grind [upd, Pc.inside, Pc.pastInit, Pc.hasMy, Pc.seeding]
+
+theorem invA_step_rdInit {sd : Seeding} {seedVal : Nat → Nat} {n0 : Nat} {s s' : State} {t : Nat}
+    (hi : InvA sd seedVal n0 s) (hpc : (s.thr t).pc = .rdInit) (hs : step sd seedVal s t = some s') : InvA sd seedVal n0 s' := by
+  obtain ⟨lockI, acqI, nonceHeld, nonceFree, myI, nI, seedingI, seedT, seedF, pastI, seedPc, fillPc, wrInitPc, seedsLe, outSeeds, outKey⟩ := hi
+  have hin := lockI t
+  simp only [step, hpc] at hs
+  simp at hs; subst hs
+  constructor
+  all_goals grind [upd, Pc.inside, Pc.pastInit, Pc.hasMy, Pc.seeding]
+
+theorem invA_step_seed {sd : Seeding} {seedVal : Nat → Nat} {n0 : Nat} {s s' : State} {t : Nat}
+    (hi : InvA sd seedVal n0 s) (hpc : (s.thr t).pc = .seed) (hs : step sd seedVal s t = some s') : InvA sd seedVal n0 s' := by
+  obtain ⟨lockI, acqI, nonceHeld, nonceFree, myI, nI, seedingI, seedT, seedF, pastI, seedPc, fillPc, wrInitPc, seedsLe, outSeeds, outKey⟩ := hi
+  have hin := lockI t
+  simp only [step, hpc] at hs
+  simp at hs; subst hs
+  constructor
+  all_goals grind [upd, Pc.inside, Pc.pastInit, Pc.hasMy, Pc.seeding]
+
+theorem invA_step_fill {sd : Seeding} {seedVal : Nat → Nat} {n0 : Nat} {s s' : State} {t : Nat}
+    (hi : InvA sd seedVal n0 s) (hpc : (s.thr t).pc = .fill) (hs : step sd seedVal s t = some s') : InvA sd seedVal n0 s' := by
+  obtain ⟨lockI, acqI, nonceHeld, nonceFree, myI, nI, seedingI, seedT, seedF, pastI, seedPc, fillPc, wrInitPc, seedsLe, outSeeds, outKey⟩ := hi
+  have hin := lockI t
+  simp only [step, hpc] at hs
+  simp at hs; subst hs
+  constructor
+  all_goals grind [upd, Pc.inside, Pc.pastInit, Pc.hasMy, Pc.seeding]
+
+theorem invA_step_wrInit {sd : Seeding} {seedVal : Nat → Nat} {n0 : Nat} {s s' : State} {t : Nat}
+    (hi : InvA sd seedVal n0 s) (hpc : (s.thr t).pc = .wrInit) (hs : step sd seedVal s t = some s') : InvA sd seedVal n0 s' := by
+  obtain ⟨lockI, acqI, nonceHeld, nonceFree, myI, nI, seedingI, seedT, seedF, pastI, seedPc, fillPc, wrInitPc, seedsLe, outSeeds, outKey⟩ := hi
+  have hin := lockI t
+  simp only [step, hpc] at hs
+  simp at hs; subst hs
+  constructor
+  all_goals grind [upd, Pc.inside, Pc.pastInit, Pc.hasMy, Pc.seeding]
+
+theorem invA_step_rdNonceA {sd : Seeding} {seedVal : Nat → Nat} {n0 : Nat} {s s' : State} {t : Nat}
+    (hi : InvA sd seedVal n0 s) (hpc : (s.thr t).pc = .rdNonceA) (hs : step sd seedVal s t = some s') : InvA sd seedVal n0 s' := by
+  obtain ⟨lockI, acqI, nonceHeld, nonceFree, myI, nI, seedingI, seedT, seedF, pastI, seedPc, fillPc, wrInitPc, seedsLe, outSeeds, outKey⟩ := hi
+  have hin := lockI t
+  simp only [step, hpc] at hs
+  simp at hs; subst hs
+  constructor
+  all_goals grind [upd, Pc.inside, Pc.pastInit, Pc.hasMy, Pc.seeding]
+
+theorem invA_step_rdNonceB {sd : Seeding} {seedVal : Nat → Nat} {n0 : Nat} {s s' : State} {t : Nat}
+    (hi : InvA sd seedVal n0 s) (hpc : (s.thr t).pc = .rdNonceB) (hs : step sd seedVal s t = some s') : InvA sd seedVal n0 s' := by
+  obtain ⟨lockI, acqI, nonceHeld, nonceFree, myI, nI, seedingI, seedT, seedF, pastI, seedPc, fillPc, wrInitPc, seedsLe, outSeeds, outKey⟩ := hi
+  have hin := lockI t
+  simp only [step, hpc] at hs
+  simp at hs; subst hs
+  constructor
+  all_goals grind [upd, Pc.inside, Pc.pastInit, Pc.hasMy, Pc.seeding]
+
+theorem invA_step_unlock {sd : Seeding} {seedVal : Nat → Nat} {n0 : Nat} {s s' : State} {t : Nat}
+    (hi : InvA sd seedVal n0 s) (hpc : (s.thr t).pc = .unlock) (hs : step sd seedVal s t = some s') : InvA sd seedVal n0 s' := by
+  obtain ⟨lockI, acqI, nonceHeld, nonceFree, myI, nI, seedingI, seedT, seedF, pastI, seedPc, fillPc, wrInitPc, seedsLe, outSeeds, outKey⟩ := hi
+  have hin := lockI t
+  simp only [step, hpc] at hs
+  simp at hs; subst hs
+  constructor
+  all_goals grind [upd, Pc.inside, Pc.pastInit, Pc.hasMy, Pc.seeding]
+
+theorem invA_step_gen {sd : Seeding} {seedVal : Nat → Nat} {n0 : Nat} {s s' : State} {t : Nat}
+    (hi : InvA sd seedVal n0 s) (hpc : (s.thr t).pc = .gen) (hs : step sd seedVal s t = some s') : InvA sd seedVal n0 s' := by
+  obtain ⟨lockI, acqI, nonceHeld, nonceFree, myI, nI, seedingI, seedT, seedF, pastI, seedPc, fillPc, wrInitPc, seedsLe, outSeeds, outKey⟩ := hi
+  have hin := lockI t
+  simp only [step, hpc] at hs
+  simp at hs; subst hs
+  constructor
+  all_goals grind [upd, Pc.inside, Pc.pastInit, Pc.hasMy, Pc.seeding]
+
+theorem invA_step {sd : Seeding} {seedVal : Nat → Nat} {n0 : Nat} {s s' : State} {t : Nat}
+    (hi : InvA sd seedVal n0 s) (hs : step sd seedVal s t = some s') : InvA sd seedVal n0 s' := by
+  cases hpc : (s.thr t).pc
+  case idle => exact invA_step_idle hi hpc hs
+  case rdInit => exact invA_step_rdInit hi hpc hs
+  case seed => exact invA_step_seed hi hpc hs
+  case fill => exact invA_step_fill hi hpc hs
+  case wrInit => exact invA_step_wrInit hi hpc hs
+  case rdNonceA => exact invA_step_rdNonceA hi hpc hs
+  case rdNonceB => exact invA_step_rdNonceB hi hpc hs
+  case wrNonce => exact invA_step_wrNonce hi hpc hs
+  case unlock => exact invA_step_unlock hi hpc hs
+  case gen => exact invA_step_gen hi hpc hs
 
 end Nfl.Prng18
